@@ -423,6 +423,155 @@ def or_print(case):
     return v
 
 
+
+# ------------------------------------------------------------------ copy_body + diff (kind "render")
+TRANSPARENT = "[transparent]"
+
+
+def enc_frags(frs):
+    return enc_list(frs, lambda f: f"{enc_str(f[0])} {enc_str(f[1])}")
+
+
+def case_styles(case):
+    st = {TRANSPARENT, ""}
+    for fr in case["frames"]:
+        for cp in fr["copies"]:
+            for ln in cp["lines"]:
+                st.update(s for s, _ in ln)
+            for pre in cp.get("pre") or []:
+                st.update(s for s, _ in pre)
+    return sorted(st)
+
+
+def case_zwe(case):
+    z = []
+    for fr in case["frames"]:
+        for cp in fr["copies"]:
+            for ln in cp["lines"]:
+                z += [t for s, t in ln if ZWE in s]
+            for pre in cp.get("pre") or []:
+                z += [t for s, t in pre if ZWE in s]
+    return z
+
+
+def ml_render(case):
+    cols, rows = case["size"]
+    o, _ = new_output(rows, cols)
+    env, _, _, _ = style_env(case_styles(case), o)
+    out = [env, "resetr"]
+    for fr in case["frames"]:
+        out.append("newscreen")
+        for cp in fr["copies"]:
+            pre = cp.get("pre")
+            out.append("copy %d %d %d %d %s %d %d %d %s %s %s %s" % (
+                cp["xpos"], cp["ypos"], cp["width"], cp["height"], enc_bool(cp["wrap"]), cp["hscroll"],
+                cp["vscroll"], cp["vscroll2"], enc_bool(pre is not None),
+                enc_frags(pre[0] if pre else []), enc_frags(pre[1] if pre else []),
+                enc_list(cp["lines"], enc_frags)))
+        d = fr.get("diff")
+        if d:
+            out.append("diff %s %s %d %d %d %d %s" % (enc_bool(d["is_done"]), enc_bool(d["full_screen"]), cols, rows,
+                                                     d["cursor"][0], d["cursor"][1], enc_bool(d["show_cursor"])))
+    return out
+
+
+def dump_screen(screen):
+    cells = []
+    for y, row in screen.data_buffer.items():
+        for x, c in row.items():
+            if not (c.char == " " and c.style == TRANSPARENT and c.width == 1):
+                cells.append((y, x, c))
+    cells.sort(key=lambda t: (t[0], t[1]))
+    zw = []
+    for y, row in screen.zero_width_escapes.items():
+        for x, t in row.items():
+            zw.append((y, x, t))
+    zw.sort(key=lambda t: (t[0], t[1]))
+    return (f"{screen.height} " +
+            enc_list(cells, lambda t: f"{t[0]} {t[1]} {enc_str(t[2].char)} {enc_str(t[2].style)} {t[2].width}") + " " +
+            enc_list(zw, lambda t: f"{t[0]} {t[1]} {enc_str(t[2])}"))
+
+
+class _StubLayout:
+    def __init__(self, w):
+        self.current_window = w
+
+
+class _StubApp:
+    def __init__(self, w):
+        self.layout = _StubLayout(w)
+
+
+def run_render(case):
+    """the real Window._copy_body and _output_screen_diff on the real Screen / Vt100_Output"""
+    from prompt_toolkit.layout.containers import Window
+    from prompt_toolkit.layout.controls import UIContent
+    from prompt_toolkit.renderer import _output_screen_diff
+
+    cols, rows = case["size"]
+    out, buf = new_output(rows, cols)
+    _, a4s, has, _ = style_env(case_styles(case), out)
+    lines_out = ["ok", "ok"]
+    screens, stream = [], []
+    win = Window()
+    app = _StubApp(win)
+    prev, pos, last, prev_width = None, Point(x=0, y=0), None, 0
+    for fr in case["frames"]:
+        screen = Screen()
+        lines_out.append("ok")
+        for cp in fr["copies"]:
+            lines = [[(s, t) for s, t in ln] for ln in cp["lines"]]
+            ui = UIContent(get_line=(lambda i, lines=lines: lines[i]), line_count=len(lines), show_cursor=False)
+            wp = WritePosition(cp["xpos"], cp["ypos"], cp["width"], cp["height"])
+            glp = None
+            if cp.get("pre") is not None:
+                p0 = [(s, t) for s, t in cp["pre"][0]]
+                pn = [(s, t) for s, t in cp["pre"][1]]
+                glp = (lambda lineno, wrap_count, p0=p0, pn=pn: p0 if wrap_count == 0 else pn)
+            Window()._copy_body(ui, screen, wp, 0, cp["width"], vertical_scroll=cp["vscroll"],
+                                horizontal_scroll=cp["hscroll"], wrap_lines=cp["wrap"],
+                                vertical_scroll_2=cp["vscroll2"], get_line_prefix=glp)
+            lines_out.append(dump_screen(screen))
+        screens.append(screen)
+        d = fr.get("diff")
+        if d:
+            screen.set_cursor_position(win, Point(x=d["cursor"][0], y=d["cursor"][1]))
+            screen.show_cursor = d["show_cursor"]
+            n = len(out.pieces)
+            pos, last = _output_screen_diff(app, out, screen, pos, ColorDepth.DEPTH_8_BIT, prev, last,
+                                            d["is_done"], d["full_screen"], a4s, has,
+                                            Size(rows=rows, columns=cols), prev_width)
+            out.flush()
+            text = buf.getvalue()
+            buf.seek(0)
+            buf.truncate()
+            pieces = [p for p in out.pieces[n:] if p[1] != ""]
+            stream.append((text, out.pieces[n:]))
+            lines_out.append(f"{pos.x} {pos.y} {'N' if last is None else enc_str(last)} {enc_str(text)} "
+                             f"{enc_pieces(pieces)}")
+            prev, prev_width = screen, cols
+    return lines_out, screens, stream
+
+
+def il_render(case):
+    return run_render(case)[0]
+
+
+def or_render(case):
+    v = []
+    _, screens, stream = run_render(case)
+    for sc in screens:
+        scan_screen("Window._copy_body", sc, v)
+    zw = case_zwe(case)
+    for text, pieces in stream:
+        check_stream("_output_screen_diff", text, pieces, zw, v)
+    if not zw:
+        for sc in screens:
+            if any(t for row in sc.zero_width_escapes.values() for t in row.values()):
+                v.append({"signature": "Window._copy_body | unmarked text stored as zero-width escape", "msg": ""})
+    return v
+
+
 # ------------------------------------------------------------------ end to end
 def _mk_completer(comps):
     from prompt_toolkit.completion import Completer, Completion
@@ -748,6 +897,7 @@ KINDS = {
     "str": (ml_str, il_str, or_str),
     "write": (ml_write, il_write, or_write),
     "print": (ml_print, il_print, or_print),
+    "render": (ml_render, il_render, or_render),
     "e2e_prompt": (lambda c: [], lambda c: [], e2e_prompt),
     "e2e_full": (lambda c: [], lambda c: [], e2e_full),
     "ast": (lambda c: [], lambda c: [], lambda c: ast_scan()),
@@ -832,11 +982,91 @@ def cases(tier, rng):
     # ---- print_formatted_text
     for _ in range(150 if quick else 4000):
         yield {"kind": "print", "frags": rand_ft(rng, 10)}
+    # ---- Window._copy_body + _output_screen_diff + Vt100_Output
+    yield from gen_small_render(tier)
+    for _ in range(600 if quick else 20000):
+        yield gen_rand_render(rng)
     # ---- end to end
     for i in range(24 if quick else 300):
         yield gen_e2e_prompt(rng, i)
     for i in range(8 if quick else 100):
         yield gen_e2e_full(rng, i)
+
+
+
+# small-scope alphabet for _copy_body: plain, wide, zero-width (merged), control (caret form, width 2),
+# ESC, C1 (hex form, width 4), explicit zero-width escape
+SMALL = ["a", "世", "́", "\x01", "\x1b", "\x9b", "Z"]
+
+
+def small_line(tup):
+    """tuple over SMALL -> fragments (the symbol "Z" stands for an explicit zero-width escape fragment)"""
+    frs, cur = [], ""
+    for sym in tup:
+        if sym == "Z":
+            if cur:
+                frs.append(["class:a", cur])
+                cur = ""
+            frs.append([ZWE, "\x1b]133;A\x07"])
+        else:
+            cur += sym
+    if cur:
+        frs.append(["class:a", cur])
+    return frs
+
+
+def gen_small_render(tier):
+    import itertools
+    maxlen = 3 if tier == "quick" else 4
+    for n in range(maxlen + 1):
+        for tup in itertools.product(SMALL, repeat=n):
+            line = small_line(tup)
+            frames = []
+            for width in (1, 2, 3, 4):
+                for wrap in (False, True):
+                    frames.append({"copies": [{"xpos": 1, "ypos": 0, "width": width, "height": 2, "wrap": wrap,
+                                               "hscroll": 0, "vscroll": 0, "vscroll2": 0, "pre": None,
+                                               "lines": [line, [["", "b"]]]}],
+                                   "diff": {"is_done": False, "full_screen": wrap, "cursor": [0, 0],
+                                            "show_cursor": True}})
+            yield {"kind": "render", "size": [6, 3], "frames": frames, "small": True}
+
+
+def rand_line(rng, n):
+    frs = []
+    for _ in range(rng.randrange(0, 4)):
+        if rng.random() < 0.15:
+            frs.append([ZWE, rng.choice(["\x1b]133;A\x07", "\x1b]1337;x=1\x07", "", "\x1b[5 q"])])
+        else:
+            frs.append([rng.choice(STYLES[:7]), rand_hostile(rng, rng.randrange(0, n))])
+    return frs
+
+
+def gen_rand_render(rng):
+    cols, rows = rng.choice([3, 5, 8, 12, 20, 40]), rng.choice([1, 2, 3, 5, 8])
+    frames = []
+    nfr = rng.randrange(1, 4)
+    for fi in range(nfr):
+        copies = []
+        for _ in range(rng.randrange(1, 4)):
+            width = rng.randrange(1, cols + 1)
+            height = rng.randrange(1, rows + 1)
+            pre = None
+            if rng.random() < 0.4:
+                pre = [rand_line(rng, 4), rand_line(rng, 3)]
+            copies.append({"xpos": rng.randrange(0, cols - width + 1), "ypos": rng.randrange(0, rows - height + 1),
+                           "width": width, "height": height, "wrap": rng.random() < 0.5,
+                           "hscroll": rng.choice([0, 0, 1, 2, 5]), "vscroll": rng.choice([0, 0, 1, 3]),
+                           "vscroll2": rng.choice([0, 0, 1]), "pre": pre,
+                           "lines": [rand_line(rng, rng.choice([2, 6, 14])) for _ in range(rng.randrange(0, 5))]})
+        frames.append({"copies": copies,
+                       "diff": {"is_done": fi == nfr - 1 and rng.random() < 0.5, "full_screen": rng.random() < 0.3,
+                                "cursor": [rng.randrange(0, cols), rng.randrange(0, rows)],
+                                "show_cursor": rng.random() < 0.8}})
+    fs = frames[0]["diff"]["full_screen"]
+    for fr in frames:
+        fr["diff"]["full_screen"] = fs
+    return {"kind": "render", "size": [cols, rows], "frames": frames}
 
 
 def gen_e2e_prompt(rng, i):
@@ -892,6 +1122,8 @@ def case_text(case):
         return "".join(case["pieces"])
     if k == "print":
         return "".join(t for _, t in case["frags"])
+    if k == "render":
+        return "".join(t for fr in case["frames"] for cp in fr["copies"] for ln in cp["lines"] for _, t in ln)
     if k in ("e2e_prompt", "e2e_full"):
         parts = list(case["texts"])
         for f in ("message", "toolbar", "rprompt", "continuation", "placeholder"):
@@ -916,6 +1148,8 @@ def sample_view(case):
         return dict(case, cps=case["cps"][:8] + [f"... {len(case['cps'])} code points"])
     if case["kind"] == "write":
         return dict(case, pieces=case["pieces"][:6])
+    if case["kind"] == "render" and case.get("small"):
+        return dict(case, frames=case["frames"][:1] + [f"... {len(case['frames'])} frames: widths 1-4 x wrap off/on"])
     return case
 
 
